@@ -366,4 +366,23 @@ theorem set_eq_zipWith_xor : ∀ (S : List Nat) (i j : Nat) (hi : i < S.length),
         List.getElem_cons_succ, Nat.xor_zero]
       rw [← ih i j (by omega)]
 
+/-! ### the alphabets as lists -/
+
+/-- the 64 characters of the standard (`url = false`) / url-safe (`url = true`) alphabet. -/
+def alphabet (url : Bool) : List Char := (List.range 64).map (encChar url)
+
+theorem alphabet_std :
+    alphabet false = "ABCDEFGHIJKLMNOPQRSTUVWXYZabcdefghijklmnopqrstuvwxyz0123456789+/".toList := by
+  decide +kernel
+
+theorem alphabet_url :
+    alphabet true = "ABCDEFGHIJKLMNOPQRSTUVWXYZabcdefghijklmnopqrstuvwxyz0123456789-_".toList := by
+  decide +kernel
+
+theorem mem_alphabet {url : Bool} {c : Char} (h : c ∈ alphabet url) : ∃ j, j < 64 ∧ c = encChar url j := by
+  unfold alphabet at h
+  rw [List.mem_map] at h
+  obtain ⟨j, hj, rfl⟩ := h
+  exact ⟨j, List.mem_range.mp hj, rfl⟩
+
 end TonVerif.Proofs.Base64
